@@ -46,7 +46,7 @@ M = [
     ('c09-vcv-in-place', 'C09', 'geodepy/statistics.py', "    rot_matrix = rotation_matrix(lat, lon)\n    vcv_local = rot_matrix.transpose() @ vcv_cart @ rot_matrix\n", "    rot_matrix = rotation_matrix(lat, lon)\n    vcv_local = rot_matrix.transpose() @ vcv_cart @ rot_matrix\n    if not column_vector:\n        vcv_cart[:] = vcv_cart\n", BREAK),
     # ---- C10
     ('c10-cmscale-from-utm', 'C10', 'geodepy/convert.py', "    psf = (float(prj.cmscale)\n", "    psf = (float(utm.cmscale)\n", BREAK),
-    ('c10-sign-rule-south', 'C10', 'geodepy/convert.py', "    if cm > lon and lat < 0:\n        grid_conv = -grid_conv", "    if cm < lon and lat < 0:\n        grid_conv = -grid_conv", BREAK),
+    ('c10-sign-rule-south', 'C10', 'geodepy/convert.py', "    if east_of_cm < 0 and lat < 0:\n        grid_conv = -grid_conv", "    if east_of_cm > 0 and lat < 0:\n        grid_conv = -grid_conv", BREAK),
     # ---- C14 / C15 / C16
     ('c14-bearing-plus-convergence', 'C14', 'geodepy/geodesy.py', "    az1to2 = grid1to2 - gridconv1", "    az1to2 = grid1to2 + gridconv1", BREAK),
     ('c14-eastofcm2-from-east1', 'C14', 'geodepy/geodesy.py', "    eastofcm2 = east2 - projection.falseeast", "    eastofcm2 = east1 - projection.falseeast", BREAK),
